@@ -316,18 +316,28 @@ def run(tier: str) -> int:
                      "the statement fixes trimming of parameter names only: where 'names trimmed' and 'names trimmed and interior "
                      "blank runs folded' give different strings the implementation's reading (folded) is expected and another output is DRIFT"]
     thorough = tier == "thorough"
-    r = tlc("Gen_Transclusion", "Gen_Transclusion_T.cfg" if thorough else "Gen_Transclusion_Q.cfg", workers=1, timeout=3000)
-    o.add_tlc("Gen_Transclusion(+laws)", r)
-    cases = r.cases
     known = sorted(o.known)
-    for c in cases:
-        c["devs"] = known if c["asis"] != c["ideal"] or c.get("asisFold") != c.get("fold") else []
-    results = pmap(run_chunk, group_by_lib(cases))
-    compare(o, cases, results, "G")
-    o.traces += len(cases)
+    # the thorough universe (2.4 million pairs) is walked through in the parts defined by Gen_Transclusion (constant Slice:
+    # part i = the libraries with the i-th T1 body; the small families sit in part 1), one TLC run + comparison per part,
+    # so that only one part is in memory at a time; quick: one run (Slice = 0 = everything)
+    cfg_name = "Gen_Transclusion_T.cfg" if thorough else "Gen_Transclusion_Q.cfg"
+    cfg_all = (common.VERIF / "spec" / cfg_name).read_text()
+    assert "Slice = 0" in cfg_all
+    for part in (range(1, 9) if thorough else [0]):
+        r = tlc("Gen_Transclusion", f"part{part}.cfg", cfg_text=cfg_all.replace("Slice = 0", f"Slice = {part}"), workers=1, timeout=3000)
+        o.add_tlc("Gen_Transclusion(+laws)" + (f" part {part}/8" if part else ""), r)
+        cases = r.cases
+        r = None
+        for c in cases:
+            c["devs"] = known if c["asis"] != c["ideal"] or c.get("asisFold") != c.get("fold") else []
+        results = pmap(run_chunk, group_by_lib(cases))
+        compare(o, cases, results, "G")
+        o.traces += len(cases)
+        if part in (0, 1):
+            mid = cases[len(cases) // 3]
+            o.sample({"lib": {k: tr.render_body(v) for k, v in mid["lib"].items()}, "page": tr.render(mid["page"]), "expected": tr.text(mid["ideal"])})
+        cases = results = None
     o.exhaustive = True
-    mid = cases[len(cases) // 3]
-    o.sample({"lib": {k: tr.render_body(v) for k, v in mid["lib"].items()}, "page": tr.render(mid["page"]), "expected": tr.text(mid["ideal"])})
     run_v(o, 1500 if thorough else 250, thorough)
     run_includable(o, thorough)
     return o.finish()
